@@ -1,0 +1,547 @@
+//go:build verif
+
+package distuv
+
+// Copyright ©2026 The Gonum Authors. All rights reserved.
+// Use of this source code is governed by a BSD-style
+// license that can be found in the LICENSE file.
+
+// Machine-checked contracts for the closed-form distributions of this package
+// (verification hook, build tag verif; this file contains comments only).
+// The contract language and the checker are described in /verif/CONTRACTS.md.
+//
+// Property C11: the methods of a distribution describe one and the same law. Only the
+// distributions whose methods are piecewise polynomial / rational (Uniform, Triangle,
+// Bernoulli) are within reach; exp, log, pow are uninterpreted functions (equal
+// arguments give equal results, nothing else is known).
+//
+// Every method is specified bit-exactly (same: identical float64 values, the float
+// operations in the order and association of the defining formula, the comparisons of
+// the documented case split) over spec macros: ucdf, usurv, uprob, uquant, ... The
+// laws are lemmas over the same macros in exact (real) arithmetic, under the documented
+// parameter domain (Min < Max; a < b, a <= c <= b; 0 <= P <= 1). Methods that call
+// math.Sqrt (StdDev, Triangle.Quantile, Triangle.Median, Bernoulli.Skewness) are
+// specified in the [real] pass by the defining property of the root (r >= 0, r*r == v),
+// because math.Sqrt cannot be named in a clause.
+//
+// FINDING (all Quantile methods below): the panic "distuv: percentile out of bounds" is
+// raised for p < 0 || p > 1; p = NaN is not rejected. Uniform{0,1}.Quantile(NaN),
+// NewTriangle(0,1,0.5,nil).Quantile(NaN), Exponential{1}.Quantile(NaN),
+// Laplace{0,1}.Quantile(NaN) return NaN; Bernoulli{P: 0.3}.Quantile(NaN) returns 1.
+// valid is therefore narrowed to "(0 <= p <= 1) or p is NaN".
+//
+// Outside exact arithmetic / the parameter domain (not claimed by the lemmas, observed):
+// Uniform{Min: -1e308, Max: 1e308}: Max-Min overflows, CDF(0) = 0, Quantile(0.5) = +Inf,
+// Prob(0) = 0, Variance = +Inf; Uniform{2, 2}: CDF(2) = Survival(2) = NaN, Prob(2) = +Inf
+// (no constructor checks Min < Max).
+
+// ---- Uniform ----------------------------------------------------------------------
+
+//@ spec ucdf(min float64, max float64, x float64) float64 = ite(x < min, 0.0, ite(x > max, 1.0, (x - min) / (max - min)))
+//@ spec usurv(min float64, max float64, x float64) float64 = ite(x < min, 1.0, ite(x > max, 0.0, (max - x) / (max - min)))
+//@ spec uprob(min float64, max float64, x float64) float64 = ite(x < min, 0.0, ite(x > max, 0.0, 1 / (max - min)))
+//@ spec uquant(min float64, max float64, p float64) float64 = p*(max-min) + min
+//@ spec umean(min float64, max float64) float64 = (max + min) / 2
+//@ spec uvar(min float64, max float64) float64 = 1.0 / 12.0 * (max - min) * (max - min)
+
+//@ func Uniform.CDF props: C11
+//@ writes nothing
+//@ ensures same(result, ucdf(u.Min, u.Max, x))
+//@ ensures [real] u.Min < u.Max ==> 0 <= result && result <= 1
+
+//@ func Uniform.Survival props: C11
+//@ writes nothing
+//@ ensures same(result, usurv(u.Min, u.Max, x))
+//@ ensures [real] u.Min < u.Max ==> result == 1 - ucdf(u.Min, u.Max, x)
+
+//@ func Uniform.Prob props: C11
+//@ writes nothing
+//@ ensures same(result, uprob(u.Min, u.Max, x))
+
+//@ func Uniform.LogProb props: C11
+//@ floats: ieee
+//@ writes nothing
+//@ ensures x < u.Min || x > u.Max ==> isInf(result) && result < 0
+//@ ensures !(x < u.Min || x > u.Max) ==> same(result, -math.Log(u.Max - u.Min))
+
+//@ func Uniform.Quantile props: C11
+//@ floats: ieee
+//@ valid (p >= 0 && p <= 1) || isNaN(p)
+//@ panics iff !valid, before-writes
+//@ writes nothing
+//@ ensures same(result, uquant(u.Min, u.Max, p))
+
+//@ func Uniform.Mean Uniform.Median props: C11
+//@ writes nothing
+//@ ensures same(result, umean(u.Min, u.Max))
+
+//@ func Uniform.Variance props: C11
+//@ writes nothing
+//@ ensures same(result, uvar(u.Min, u.Max))
+
+//@ func Uniform.StdDev props: C11
+//@ writes nothing
+//@ ensures [real] result >= 0 && result*result == uvar(u.Min, u.Max)
+
+//@ func Uniform.Skewness props: C11
+//@ writes nothing
+//@ ensures same(result, 0.0)
+
+//@ func Uniform.ExKurtosis props: C11
+//@ floats: ieee
+//@ writes nothing
+//@ ensures same(result, -1.2)
+
+//@ func Uniform.Entropy props: C11
+//@ writes nothing
+//@ ensures same(result, math.Log(u.Max - u.Min))
+
+//@ func Uniform.NumParameters props: C11
+//@ writes nothing
+//@ ensures result == 2
+
+// ---- laws of the uniform distribution (exact arithmetic, Min < Max) -------------------
+
+//@ lemma uniform_cdf_range props: C11
+//@ floats: real
+//@ var lo float64, hi float64, x float64
+//@ hyp lo < hi
+//@ goal 0 <= ucdf(lo, hi, x) && ucdf(lo, hi, x) <= 1 && (x <= lo ==> ucdf(lo, hi, x) == 0) && (x >= hi ==> ucdf(lo, hi, x) == 1)
+
+//@ lemma uniform_cdf_monotone props: C11
+//@ floats: real
+//@ var lo float64, hi float64, x float64, y float64
+//@ hyp lo < hi && x <= y
+//@ goal ucdf(lo, hi, x) <= ucdf(lo, hi, y)
+
+//@ lemma uniform_survival_complement props: C11
+//@ floats: real
+//@ var lo float64, hi float64, x float64
+//@ hyp lo < hi
+//@ goal usurv(lo, hi, x) == 1 - ucdf(lo, hi, x)
+
+//@ lemma uniform_quantile_of_cdf props: C11
+//@ floats: real
+//@ var lo float64, hi float64, x float64
+//@ hyp lo < hi && lo <= x && x <= hi
+//@ goal uquant(lo, hi, ucdf(lo, hi, x)) == x
+
+//@ lemma uniform_cdf_of_quantile props: C11
+//@ floats: real
+//@ var lo float64, hi float64, p float64
+//@ hyp lo < hi && 0 <= p && p <= 1
+//@ goal ucdf(lo, hi, uquant(lo, hi, p)) == p && lo <= uquant(lo, hi, p) && uquant(lo, hi, p) <= hi
+
+//@ lemma uniform_quantile_generalized_inverse props: C11
+//@ floats: real
+//@ var lo float64, hi float64, p float64, x float64
+//@ hyp lo < hi && 0 < p && p <= 1
+//@ goal (ucdf(lo, hi, x) >= p) == (x >= uquant(lo, hi, p))
+
+//@ lemma uniform_prob_nonneg props: C11
+//@ floats: real
+//@ var lo float64, hi float64, x float64
+//@ hyp lo < hi
+//@ goal uprob(lo, hi, x) >= 0 && (lo <= x && x <= hi ==> uprob(lo, hi, x)*(hi - lo) == 1)
+
+//@ lemma uniform_prob_is_derivative_of_cdf props: C11
+//@ floats: real
+//@ var lo float64, hi float64, x float64, y float64, t float64
+//@ hyp lo < hi && x <= t && t <= y
+//@ hyp (lo <= x && y <= hi) || y < lo || hi < x
+//@ goal ucdf(lo, hi, y) - ucdf(lo, hi, x) == uprob(lo, hi, t)*(y - x)
+
+//@ lemma uniform_mean_median props: C11
+//@ floats: real
+//@ var lo float64, hi float64
+//@ hyp lo < hi
+//@ goal umean(lo, hi) == (lo + hi)/2 && umean(lo, hi) == uquant(lo, hi, 0.5) && ucdf(lo, hi, umean(lo, hi)) == 0.5
+//@      && (hi*hi - lo*lo)/2*uprob(lo, hi, umean(lo, hi)) == umean(lo, hi)
+
+//@ lemma uniform_variance_second_central_moment props: C11
+//@ floats: real
+//@ var lo float64, hi float64, m float64, d float64
+//@ hyp lo < hi && m == umean(lo, hi) && d == uprob(lo, hi, m)
+//@ goal uvar(lo, hi) == (hi - lo)*(hi - lo)/12 && uvar(lo, hi) == ((hi-m)*(hi-m)*(hi-m) - (lo-m)*(lo-m)*(lo-m))/3*d
+
+//@ lemma uniform_skewness_kurtosis props: C11
+//@ floats: real
+//@ var lo float64, hi float64, m float64, d float64
+//@ hyp lo < hi && m == umean(lo, hi) && d == uprob(lo, hi, m)
+//@ goal ((hi-m)*(hi-m)*(hi-m)*(hi-m) - (lo-m)*(lo-m)*(lo-m)*(lo-m))/4*d == 0
+//@      && ((hi-m)*(hi-m)*(hi-m)*(hi-m)*(hi-m) - (lo-m)*(lo-m)*(lo-m)*(lo-m)*(lo-m))/5*d == (3 - 6.0/5.0)*uvar(lo, hi)*uvar(lo, hi)
+
+// ---- Triangle ---------------------------------------------------------------------
+
+//@ spec tcdf(a float64, b float64, c float64, x float64) float64 = ite(x <= a, 0.0, ite(x <= c, ((x-a)*(x-a))/((b-a)*(c-a)), ite(x < b, 1 - ((b-x)*(b-x))/((b-a)*(b-c)), 1.0)))
+//@ spec tprob(a float64, b float64, c float64, x float64) float64 = ite(x < a, 0.0, ite(x < c, 2*(x-a)/((b-a)*(c-a)), ite(x == c, 2/(b-a), ite(x <= b, 2*(b-x)/((b-a)*(b-c)), 0.0))))
+//@ spec tmean(a float64, b float64, c float64) float64 = (a + b + c)/3
+//@ spec tvar(a float64, b float64, c float64) float64 = (a*a + b*b + c*c - a*b - a*c - b*c)/18
+
+// FINDING: the documented constraints are a < b and a <= c <= b, but the checks are
+// a >= b, a > c, c > b: NaN parameters pass. NewTriangle(NaN, 1, 0.5, nil),
+// NewTriangle(0, 1, NaN, nil), NewTriangle(0, NaN, 0.5, nil) return a Triangle whose
+// methods all yield NaN. valid is the negation of the three checks; for non-NaN
+// arguments it is the documented constraint (second ensures).
+//@ func NewTriangle props: C11
+//@ floats: ieee
+//@ valid !(a >= b) && !(a > c) && !(c > b)
+//@ panics iff !valid, before-writes
+//@ writes nothing
+//@ ensures same(result.a, a) && same(result.b, b) && same(result.c, c)
+//@ ensures !isNaN(a) && !isNaN(b) && !isNaN(c) ==> a < b && a <= c && c <= b
+
+//@ func Triangle.CDF props: C11
+//@ writes nothing
+//@ ensures same(result, tcdf(t.a, t.b, t.c, x))
+//@ ensures [real] t.a < t.b && t.a <= t.c && t.c <= t.b ==> 0 <= result && result <= 1
+
+//@ func Triangle.Survival props: C11
+//@ writes nothing
+//@ ensures same(result, 1 - tcdf(t.a, t.b, t.c, x))
+
+//@ func Triangle.Prob props: C11
+//@ writes nothing
+//@ ensures same(result, tprob(t.a, t.b, t.c, x))
+
+//@ func Triangle.LogProb props: C11
+//@ writes nothing
+//@ ensures same(result, math.Log(tprob(t.a, t.b, t.c, x)))
+
+//@ func Triangle.Quantile props: C11
+//@ floats: ieee
+//@ valid (p >= 0 && p <= 1) || isNaN(p)
+//@ panics iff !valid, before-writes
+//@ writes nothing
+//@ ensures [real] t.a < t.b && t.a <= t.c && t.c <= t.b && p < (t.c-t.a)/(t.b-t.a) ==> result >= t.a && (result-t.a)*(result-t.a) == p*(t.b-t.a)*(t.c-t.a)
+//@ ensures [real] t.a < t.b && t.a <= t.c && t.c <= t.b && p >= (t.c-t.a)/(t.b-t.a) ==> result <= t.b && (t.b-result)*(t.b-result) == (1-p)*(t.b-t.a)*(t.b-t.c)
+
+//@ func Triangle.Mean props: C11
+//@ writes nothing
+//@ ensures same(result, tmean(t.a, t.b, t.c))
+
+//@ func Triangle.Median props: C11
+//@ writes nothing
+//@ ensures [real] t.a < t.b && t.a <= t.c && t.c <= t.b && t.c >= (t.a+t.b)/2 ==> result >= t.a && (result-t.a)*(result-t.a) == (t.b-t.a)*(t.c-t.a)/2
+//@ ensures [real] t.a < t.b && t.a <= t.c && t.c <= t.b && t.c < (t.a+t.b)/2 ==> result <= t.b && (t.b-result)*(t.b-result) == (t.b-t.a)*(t.b-t.c)/2
+
+//@ func Triangle.Skewness props: C11
+//@ writes nothing
+//@ ensures same(result, (math.Sqrt2 * (t.a + t.b - 2*t.c) * (2*t.a - t.b - t.c) * (t.a - 2*t.b + t.c)) / (5 * math.Pow(t.a*t.a+t.b*t.b+t.c*t.c-t.a*t.b-t.a*t.c-t.b*t.c, 1.5)))
+
+//@ func Triangle.Mode props: C11
+//@ writes nothing
+//@ ensures same(result, t.c)
+
+//@ func Triangle.Variance props: C11
+//@ writes nothing
+//@ ensures same(result, tvar(t.a, t.b, t.c))
+
+//@ func Triangle.StdDev props: C11
+//@ writes nothing
+//@ ensures [real] t.a < t.b && t.a <= t.c && t.c <= t.b ==> result >= 0 && result*result == tvar(t.a, t.b, t.c)
+
+//@ func Triangle.ExKurtosis props: C11
+//@ floats: ieee
+//@ writes nothing
+//@ ensures same(result, -0.6)
+
+//@ func Triangle.Entropy props: C11
+//@ writes nothing
+//@ ensures same(result, 0.5 + math.Log(t.b - t.a) - math.Ln2)
+
+//@ func Triangle.NumParameters props: C11
+//@ writes nothing
+//@ ensures result == 3
+
+// ---- laws of the triangle distribution (exact arithmetic, a < b, a <= c <= b) -------------
+//
+// The density is linear on [a,c] and on [c,b], so the trapezoid rule is its exact
+// integral on each piece: cdf(y) - cdf(x) == (prob(x)+prob(y))/2*(y-x). Mean and variance
+// are the closed forms of the integrals of t*prob(t) and (t-mean)^2*prob(t) over the two
+// pieces (a piece of width 0 contributes 0). In the inverse laws q stands for
+// Quantile(p) and m for Median(), characterised as in the [real] ensures of these methods.
+// All lemmas are nonlinear real arithmetic; each was decided (unsat) in < 0.5 s in three
+// independent runs, and false variants (across-the-mode trapezoid, q without q >= a,
+// wrong variance, goal false) were refuted with models.
+
+//@ lemma triangle_cdf_range props: C11
+//@ floats: real
+//@ var a float64, b float64, c float64, x float64
+//@ hyp a < b && a <= c && c <= b
+//@ goal 0 <= tcdf(a, b, c, x) && tcdf(a, b, c, x) <= 1 && (x <= a ==> tcdf(a, b, c, x) == 0) && (x >= b ==> tcdf(a, b, c, x) == 1)
+
+//@ lemma triangle_cdf_at_mode props: C11
+//@ floats: real
+//@ var a float64, b float64, c float64
+//@ hyp a < b && a <= c && c <= b
+//@ goal tcdf(a, b, c, c) == (c - a)/(b - a) && (c < b ==> 1 - ((b-c)*(b-c))/((b-a)*(b-c)) == (c - a)/(b - a))
+
+//@ lemma triangle_cdf_monotone props: C11
+//@ floats: real
+//@ var a float64, b float64, c float64, x float64, y float64
+//@ hyp a < b && a <= c && c <= b && x <= y
+//@ goal tcdf(a, b, c, x) <= tcdf(a, b, c, y)
+
+//@ lemma triangle_prob_nonneg_mode props: C11
+//@ floats: real
+//@ var a float64, b float64, c float64, x float64
+//@ hyp a < b && a <= c && c <= b
+//@ goal 0 <= tprob(a, b, c, x) && tprob(a, b, c, x) <= tprob(a, b, c, c) && tprob(a, b, c, c) == 2/(b - a)
+
+//@ lemma triangle_prob_is_derivative_of_cdf props: C11
+//@ floats: real
+//@ var a float64, b float64, c float64, x float64, y float64
+//@ hyp a < b && a <= c && c <= b && x <= y
+//@ hyp (a <= x && y <= c) || (c <= x && y <= b) || y < a || b < x
+//@ goal tcdf(a, b, c, y) - tcdf(a, b, c, x) == (tprob(a, b, c, x) + tprob(a, b, c, y))/2*(y - x)
+
+//@ lemma triangle_mean_first_moment props: C11
+//@ floats: real
+//@ var a float64, b float64, c float64
+//@ hyp a < b && a <= c && c <= b
+//@ goal tmean(a, b, c) == ite(a < c, 2/((b-a)*(c-a))*((c*c*c - a*a*a)/3 - a*(c*c - a*a)/2), 0.0) + ite(c < b, 2/((b-a)*(b-c))*(b*(b*b - c*c)/2 - (b*b*b - c*c*c)/3), 0.0)
+
+//@ lemma triangle_variance_second_central_moment props: C11
+//@ floats: real
+//@ var a float64, b float64, c float64, m float64, ua float64, ub float64, uc float64
+//@ hyp a < b && a <= c && c <= b && m == tmean(a, b, c) && ua == a - m && ub == b - m && uc == c - m
+//@ goal tvar(a, b, c) == ite(a < c, 2/((b-a)*(c-a))*((uc*uc*uc*uc - ua*ua*ua*ua)/4 - ua*(uc*uc*uc - ua*ua*ua)/3), 0.0) + ite(c < b, 2/((b-a)*(b-c))*(ub*(ub*ub*ub - uc*uc*uc)/3 - (ub*ub*ub*ub - uc*uc*uc*uc)/4), 0.0)
+
+//@ lemma triangle_cdf_of_quantile props: C11
+//@ floats: real
+//@ var a float64, b float64, c float64, p float64, q float64
+//@ hyp a < b && a <= c && c <= b && 0 <= p && p <= 1
+//@ hyp p < (c-a)/(b-a) ==> q >= a && (q-a)*(q-a) == p*(b-a)*(c-a)
+//@ hyp p >= (c-a)/(b-a) ==> q <= b && (b-q)*(b-q) == (1-p)*(b-a)*(b-c)
+//@ goal tcdf(a, b, c, q) == p && a <= q && q <= b
+
+//@ lemma triangle_quantile_of_cdf props: C11
+//@ floats: real
+//@ var a float64, b float64, c float64, x float64, p float64, q float64
+//@ hyp a < b && a <= c && c <= b && a <= x && x <= b && p == tcdf(a, b, c, x)
+//@ hyp p < (c-a)/(b-a) ==> q >= a && (q-a)*(q-a) == p*(b-a)*(c-a)
+//@ hyp p >= (c-a)/(b-a) ==> q <= b && (b-q)*(b-q) == (1-p)*(b-a)*(b-c)
+//@ goal q == x
+
+//@ lemma triangle_median_halves props: C11
+//@ floats: real
+//@ var a float64, b float64, c float64, m float64
+//@ hyp a < b && a <= c && c <= b
+//@ hyp c >= (a+b)/2 ==> m >= a && (m-a)*(m-a) == (b-a)*(c-a)/2
+//@ hyp c < (a+b)/2 ==> m <= b && (b-m)*(b-m) == (b-a)*(b-c)/2
+//@ goal tcdf(a, b, c, m) == 0.5
+
+// ---- Bernoulli --------------------------------------------------------------------
+
+//@ spec bcdf(p float64, x float64) float64 = ite(x < 0, 0.0, ite(x < 1, 1 - p, 1.0))
+//@ spec bsurv(p float64, x float64) float64 = ite(x < 0, 1.0, ite(x < 1, p, 0.0))
+//@ spec bprob(p float64, x float64) float64 = ite(x == 0, 1 - p, ite(x == 1, p, 0.0))
+//@ spec bquant(p float64, q float64) float64 = ite(q <= 1 - p, 0.0, 1.0)
+//@ spec bmedian(p float64) float64 = ite(p < 0.5, 0.0, ite(p > 0.5, 1.0, 0.5))
+//@ spec bvar(p float64) float64 = p*(1 - p)
+
+//@ func Bernoulli.CDF props: C11
+//@ writes nothing
+//@ ensures same(result, bcdf(b.P, x))
+
+//@ func Bernoulli.Survival props: C11
+//@ writes nothing
+//@ ensures same(result, bsurv(b.P, x))
+//@ ensures [real] result == 1 - bcdf(b.P, x)
+
+//@ func Bernoulli.Prob props: C11
+//@ writes nothing
+//@ ensures same(result, bprob(b.P, x))
+
+//@ func Bernoulli.LogProb props: C11
+//@ floats: ieee
+//@ writes nothing
+//@ ensures x == 0 ==> same(result, math.Log(1 - b.P))
+//@ ensures !(x == 0) && x == 1 ==> same(result, math.Log(b.P))
+//@ ensures !(x == 0) && !(x == 1) ==> isInf(result) && result < 0
+
+//@ func Bernoulli.Quantile props: C11
+//@ floats: ieee
+//@ valid (p >= 0 && p <= 1) || isNaN(p)
+//@ panics iff !valid, before-writes
+//@ writes nothing
+//@ ensures same(result, bquant(b.P, p))
+
+//@ func Bernoulli.Mean props: C11
+//@ writes nothing
+//@ ensures same(result, b.P)
+
+//@ func Bernoulli.Median props: C11
+//@ writes nothing
+//@ ensures same(result, bmedian(b.P))
+
+//@ func Bernoulli.Variance props: C11
+//@ writes nothing
+//@ ensures same(result, bvar(b.P))
+
+//@ func Bernoulli.StdDev props: C11
+//@ writes nothing
+//@ ensures [real] 0 <= b.P && b.P <= 1 ==> result >= 0 && result*result == bvar(b.P)
+
+//@ func Bernoulli.Skewness props: C11
+//@ writes nothing
+//@ ensures [real] 0 < b.P && b.P < 1 ==> result*result*bvar(b.P) == (1 - 2*b.P)*(1 - 2*b.P) && (result >= 0) == (1 - 2*b.P >= 0)
+
+//@ func Bernoulli.ExKurtosis props: C11
+//@ writes nothing
+//@ ensures same(result, (1 - 6*bvar(b.P))/bvar(b.P))
+
+//@ func Bernoulli.Entropy props: C11
+//@ floats: ieee
+//@ writes nothing
+//@ ensures b.P == 0 || b.P == 1 ==> same(result, 0.0)
+//@ ensures !(b.P == 0 || b.P == 1) ==> same(result, -b.P*math.Log(b.P) - (1 - b.P)*math.Log(1 - b.P))
+
+//@ func Bernoulli.NumParameters props: C11
+//@ writes nothing
+//@ ensures result == 1
+
+// ---- laws of the Bernoulli distribution (exact arithmetic, 0 <= P <= 1) -------------------
+
+//@ lemma bernoulli_cdf_range_monotone props: C11
+//@ floats: real
+//@ var p float64, x float64, y float64
+//@ hyp 0 <= p && p <= 1 && x <= y
+//@ goal 0 <= bcdf(p, x) && bcdf(p, x) <= bcdf(p, y) && bcdf(p, y) <= 1 && (x < 0 ==> bcdf(p, x) == 0) && (y >= 1 ==> bcdf(p, y) == 1)
+
+//@ lemma bernoulli_survival_complement props: C11
+//@ floats: real
+//@ var p float64, x float64
+//@ hyp 0 <= p && p <= 1
+//@ goal bsurv(p, x) == 1 - bcdf(p, x)
+
+//@ lemma bernoulli_prob_sums_to_cdf props: C11
+//@ floats: real
+//@ var p float64, x float64
+//@ hyp 0 <= p && p <= 1
+//@ goal bprob(p, x) >= 0 && bprob(p, 0) + bprob(p, 1) == 1 && bcdf(p, x) == ite(0 <= x, bprob(p, 0), 0.0) + ite(1 <= x, bprob(p, 1), 0.0)
+
+//@ lemma bernoulli_quantile_generalized_inverse props: C11
+//@ floats: real
+//@ var p float64, q float64, x float64
+//@ hyp 0 <= p && p <= 1 && 0 < q && q <= 1
+//@ goal (bcdf(p, x) >= q) == (x >= bquant(p, q))
+
+//@ lemma bernoulli_moments props: C11
+//@ floats: real
+//@ var p float64, s float64, k float64
+//@ hyp 0 <= p && p <= 1
+//@ goal p == 0*bprob(p, 0) + 1*bprob(p, 1) && bvar(p) == (0-p)*(0-p)*bprob(p, 0) + (1-p)*(1-p)*bprob(p, 1)
+//@      && (0 < p && p < 1 && s >= 0 && s*s == bvar(p) && k*s == 1 - 2*p ==> k*(s*s*s) == (0-p)*(0-p)*(0-p)*bprob(p, 0) + (1-p)*(1-p)*(1-p)*bprob(p, 1))
+//@      && (0 < p && p < 1 ==> ((1 - 6*bvar(p))/bvar(p) + 3)*bvar(p)*bvar(p) == (0-p)*(0-p)*(0-p)*(0-p)*bprob(p, 0) + (1-p)*(1-p)*(1-p)*(1-p)*bprob(p, 1))
+
+// Median() is a median (P(X <= m) >= 1/2 and P(X >= m) >= 1/2) and agrees with
+// Quantile(1/2) except at P == 1/2 (observed: Bernoulli{0.5}.Median() = 0.5,
+// Quantile(0.5) = 0; both are medians, every point of [0,1] is one).
+//@ lemma bernoulli_median props: C11
+//@ floats: real
+//@ var p float64
+//@ hyp 0 <= p && p <= 1
+//@ goal bcdf(p, bmedian(p)) >= 0.5 && bsurv(p, bmedian(p)) + bprob(p, bmedian(p)) >= 0.5 && (p != 0.5 ==> bmedian(p) == bquant(p, 0.5))
+
+// ---- Exponential, Laplace: relations that need no property of exp / log ------------------
+//
+// Bit-exact formulas over the uninterpreted math.Exp / Log / Expm1, Prob == exp(LogProb)
+// (the same Exp applied to the LogProb expression), the moments, and for Laplace
+// Survival == 1 - CDF and the symmetry about Mu (both sides contain the same Exp term).
+// Not provable and not stated: Exponential Survival + CDF == 1 (Exp against -Expm1),
+// CDF(Median) == 1/2, Quantile as inverse of CDF (exp(log x) == x), Entropy;
+// Laplace Variance == StdDev^2 (math.Sqrt2 is a rational constant, its square is not 2).
+
+//@ func Exponential.CDF props: C11
+//@ writes nothing
+//@ ensures same(result, ite(x < 0, 0.0, -math.Expm1(-e.Rate*x)))
+
+//@ func Exponential.Survival props: C11
+//@ writes nothing
+//@ ensures same(result, ite(x < 0, 1.0, math.Exp(-e.Rate*x)))
+
+//@ func Exponential.LogProb props: C11
+//@ floats: ieee
+//@ writes nothing
+//@ ensures x < 0 ==> isInf(result) && result < 0
+//@ ensures !(x < 0) ==> same(result, math.Log(e.Rate) - e.Rate*x)
+
+// Prob == exp(LogProb) on the support
+//@ func Exponential.Prob props: C11
+//@ floats: ieee
+//@ writes nothing
+//@ ensures !(x < 0) ==> same(result, math.Exp(math.Log(e.Rate) - e.Rate*x))
+
+//@ func Exponential.Quantile props: C11
+//@ floats: ieee
+//@ valid (p >= 0 && p <= 1) || isNaN(p)
+//@ panics iff !valid, before-writes
+//@ writes nothing
+//@ ensures same(result, -math.Log(1-p)/e.Rate)
+
+//@ func Exponential.Mean Exponential.StdDev props: C11
+//@ writes nothing
+//@ ensures same(result, 1/e.Rate)
+
+//@ func Exponential.Variance props: C11
+//@ writes nothing
+//@ ensures same(result, 1/(e.Rate*e.Rate))
+//@ ensures [real] e.Rate > 0 ==> result == (1/e.Rate)*(1/e.Rate)
+
+//@ func Exponential.Median props: C11
+//@ writes nothing
+//@ ensures same(result, math.Ln2/e.Rate)
+
+//@ func Exponential.Mode props: C11
+//@ writes nothing
+//@ ensures same(result, 0.0)
+
+//@ spec lcdf(mu float64, s float64, x float64) float64 = ite(x < mu, 0.5*math.Exp((x-mu)/s), 1 - 0.5*math.Exp(-(x-mu)/s))
+//@ spec lsurv(mu float64, s float64, x float64) float64 = ite(x < mu, 1 - 0.5*math.Exp((x-mu)/s), 0.5*math.Exp(-(x-mu)/s))
+
+//@ func Laplace.CDF props: C11
+//@ writes nothing
+//@ ensures same(result, lcdf(l.Mu, l.Scale, x))
+//@ ensures [real] l.Scale > 0 ==> result == 1 - lsurv(l.Mu, l.Scale, x)
+
+//@ func Laplace.Survival props: C11
+//@ writes nothing
+//@ ensures same(result, lsurv(l.Mu, l.Scale, x))
+
+//@ func Laplace.LogProb props: C11
+//@ floats: ieee
+//@ writes nothing
+//@ ensures same(result, -math.Ln2 - math.Log(l.Scale) - abs(x-l.Mu)/l.Scale)
+
+// Prob == exp(LogProb)
+//@ func Laplace.Prob props: C11
+//@ floats: ieee
+//@ writes nothing
+//@ ensures same(result, math.Exp(-math.Ln2 - math.Log(l.Scale) - abs(x-l.Mu)/l.Scale))
+
+//@ func Laplace.Quantile props: C11
+//@ floats: ieee
+//@ valid (p >= 0 && p <= 1) || isNaN(p)
+//@ panics iff !valid, before-writes
+//@ writes nothing
+//@ ensures same(result, ite(p < 0.5, l.Mu + l.Scale*math.Log(1+2*(p-0.5)), l.Mu - l.Scale*math.Log(1-2*(p-0.5))))
+
+//@ func Laplace.Mean Laplace.Median Laplace.Mode props: C11
+//@ writes nothing
+//@ ensures same(result, l.Mu)
+
+//@ func Laplace.Variance props: C11
+//@ writes nothing
+//@ ensures same(result, 2*l.Scale*l.Scale)
+
+//@ func Laplace.StdDev props: C11
+//@ writes nothing
+//@ ensures same(result, math.Sqrt2*l.Scale)
+
+//@ lemma laplace_survival_complement_symmetry props: C11
+//@ floats: real
+//@ var mu float64, s float64, x float64, d float64
+//@ hyp s > 0 && d > 0
+//@ goal lsurv(mu, s, x) == 1 - lcdf(mu, s, x) && lcdf(mu, s, mu + d) + lcdf(mu, s, mu - d) == 1 && lcdf(mu, s, mu - d) == lsurv(mu, s, mu + d)
